@@ -1,0 +1,10 @@
+//go:build verif
+
+// Contracts for package align, checked by /verif (govc). Comment-only.
+
+package align
+
+//@ global PropertyType immutable -- property key, only compared
+//@ global Left immutable -- alignment value, only copied and compared
+//@ global Right immutable -- alignment value, only copied and compared
+//@ global Center immutable -- alignment value, only copied and compared
